@@ -10,10 +10,21 @@
 //	concg <prefill> <prog0> ...         lockstep, and the harness holds spq.Lock() until every call of
 //	                                    the round is pending (methods that take no lock run anyway)
 //	                                    (a prog is ops joined by ',', "-" when empty)
+//	conct <prefill> <prog0> ...         free running, goroutine t starts 3*t ms late: with prog0 = w on
+//	                                    an empty queue the polling loop of PopWithTimer is what
+//	                                    takes the transaction a later goroutine pushes
 //	probe <method>                      hold spq.Lock() in the harness and call the method from
 //	                                    another goroutine
+//	shape <method>                      the critical-section shape of the method, read from
+//	                                    priority_queue.go with go/parser (see c34Shape)
 //	ops:  u:<id>:<prio> Push   o Pop   t PopWithTimer(expired timer)   k Peek   r:<id> RemoveExtrinsic
 //	      e:<id> Exists        n Len   g Pending
+//	      w PopWithTimer with a live timer (40 ms in seq, 2 s in conc*)
+//
+// In gate mode the harness keeps the mutex for 1.5 ms after the last call of the round is pending:
+// a waiter that has waited longer than 1 ms switches sync.Mutex to starvation mode (FIFO hand-off),
+// so a method that takes the mutex twice (check in one critical section, act in another) is really
+// interleaved with the other calls of the round instead of barging back in.
 //
 // observables:
 //
@@ -23,11 +34,16 @@
 //	conc* -> one record per completed call, in no particular order:
 //	         <tid>/<call stamp>/<ret stamp>/<op>/<result>   (prefill tid fe, final "g" has tid ff)
 //	probe -> blocked | ran
+//	shape -> <locks>:<unlocks>:<deferred unlocks>:<other lock calls>:<recv.Lock() first>:
+//	         <defer recv.Unlock() next>:<field accesses>   (all numbers hex; "missing")
 package transaction
 
 import (
 	"encoding/binary"
 	"fmt"
+	"go/ast"
+	"go/parser"
+	"go/token"
 	"os"
 	"runtime"
 	"strings"
@@ -77,6 +93,10 @@ var c34Expired = func() <-chan time.Time {
 	return ch
 }()
 
+// the live timer of op w: short in sequential cases (an empty queue answers nil when it fires),
+// long in concurrent ones (another goroutine pushes meanwhile)
+var c34Live = 40 * time.Millisecond
+
 func c34Do(q *PriorityQueue, op string) (res string) {
 	defer func() {
 		if p := recover(); p != nil {
@@ -98,6 +118,10 @@ func c34Do(q *PriorityQueue, op string) (res string) {
 		return c34Tx(q.Pop())
 	case "t":
 		return c34Tx(q.PopWithTimer(c34Expired))
+	case "w":
+		tm := time.NewTimer(c34Live)
+		defer tm.Stop()
+		return c34Tx(q.PopWithTimer(tm.C))
 	case "k":
 		return c34Tx(q.Peek())
 	case "r":
@@ -166,8 +190,9 @@ func (b *c34Barrier) wait() {
 }
 
 func c34Conc(prefill []string, progs [][]string, mode string) string {
-	lockstep := mode != "conc"
+	lockstep := mode == "concl" || mode == "concg"
 	gate := mode == "concg"
+	timed := mode == "conct"
 	q := NewPriorityQueue()
 	var clock atomic.Uint64
 	var all []c34Rec
@@ -196,6 +221,9 @@ func c34Conc(prefill []string, progs [][]string, mode string) string {
 			defer wg.Done()
 			if !lockstep {
 				bar.wait()
+			}
+			if timed {
+				time.Sleep(time.Duration(3*t) * time.Millisecond)
 			}
 			for i := 0; i < rounds; i++ {
 				if lockstep {
@@ -226,9 +254,9 @@ func c34Conc(prefill []string, progs [][]string, mode string) string {
 			for called.Load() < want {
 				runtime.Gosched()
 			}
-			for j := 0; j < 3; j++ {
-				runtime.Gosched()
-			}
+			// let every caller park on the mutex and wait long enough (> 1 ms) for the
+			// mutex to go into starvation mode once the first of them is barged
+			time.Sleep(1500 * time.Microsecond)
 			q.Unlock()
 			for returned.Load() < want {
 				runtime.Gosched()
@@ -295,6 +323,109 @@ func c34Probe(method string) string {
 	return "blocked"
 }
 
+// c34Shape reads priority_queue.go (the file under test, in the package directory) and reports
+// the critical-section shape of one method of PriorityQueue:
+//
+//	locks      calls of <recv>.Lock()          unlocks    calls of <recv>.Unlock()
+//	deferred   ... of which in a defer         other      RLock/RUnlock/TryLock/TryRLock calls
+//	first      1 when <recv>.Lock() is a statement of the body and no statement before it
+//	           mentions the receiver
+//	second     1 when the statement right after it is defer <recv>.Unlock()
+//	fields     selector expressions <recv>.pq / .txs / .currOrder anywhere in the body
+//
+// The theorem C34_linearizable models a method as ONE critical section around the whole body:
+// that is the shape 1:1:1:0:1:1:* .  The composite PopWithTimer must touch no field: 0:0:0:0:0:0:0.
+func c34Shape(method string) string {
+	fset := token.NewFileSet()
+	file, err := parser.ParseFile(fset, "priority_queue.go", nil, 0)
+	if err != nil {
+		return "err:parse"
+	}
+	for _, d := range file.Decls {
+		fd, ok := d.(*ast.FuncDecl)
+		if !ok || fd.Recv == nil || len(fd.Recv.List) != 1 || fd.Body == nil || fd.Name.Name != method {
+			continue
+		}
+		st, ok := fd.Recv.List[0].Type.(*ast.StarExpr)
+		if !ok {
+			continue
+		}
+		if id, ok := st.X.(*ast.Ident); !ok || id.Name != "PriorityQueue" {
+			continue
+		}
+		if len(fd.Recv.List[0].Names) != 1 {
+			return "err:receiver"
+		}
+		recv := fd.Recv.List[0].Names[0].Name
+		isRecvCall := func(e ast.Expr, name string) bool {
+			ce, ok := e.(*ast.CallExpr)
+			if !ok {
+				return false
+			}
+			sel, ok := ce.Fun.(*ast.SelectorExpr)
+			if !ok || sel.Sel.Name != name {
+				return false
+			}
+			id, ok := sel.X.(*ast.Ident)
+			return ok && id.Name == recv
+		}
+		var locks, unlocks, deferred, other, fields uint64
+		ast.Inspect(fd.Body, func(n ast.Node) bool {
+			switch x := n.(type) {
+			case *ast.DeferStmt:
+				if isRecvCall(x.Call, "Unlock") {
+					deferred++
+				}
+			case *ast.CallExpr:
+				if sel, ok := x.Fun.(*ast.SelectorExpr); ok {
+					switch sel.Sel.Name {
+					case "Lock":
+						locks++
+					case "Unlock":
+						unlocks++
+					case "RLock", "RUnlock", "TryLock", "TryRLock":
+						other++
+					}
+				}
+			case *ast.SelectorExpr:
+				if id, ok := x.X.(*ast.Ident); ok && id.Name == recv {
+					switch x.Sel.Name {
+					case "pq", "txs", "currOrder":
+						fields++
+					}
+				}
+			}
+			return true
+		})
+		// first: <recv>.Lock() is a top-level statement and nothing before it mentions the receiver;
+		// second: the statement right after it is defer <recv>.Unlock()
+		first, second := uint64(0), uint64(0)
+		for i, stmt := range fd.Body.List {
+			if es, ok := stmt.(*ast.ExprStmt); ok && isRecvCall(es.X, "Lock") {
+				first = 1
+				if i+1 < len(fd.Body.List) {
+					if ds, ok := fd.Body.List[i+1].(*ast.DeferStmt); ok && isRecvCall(ds.Call, "Unlock") {
+						second = 1
+					}
+				}
+				break
+			}
+			mentions := false
+			ast.Inspect(stmt, func(n ast.Node) bool {
+				if id, ok := n.(*ast.Ident); ok && id.Name == recv {
+					mentions = true
+				}
+				return true
+			})
+			if mentions {
+				break
+			}
+		}
+		return fmt.Sprintf("%x:%x:%x:%x:%x:%x:%x", locks, unlocks, deferred, other, first, second, fields)
+	}
+	return "missing"
+}
+
 func c34Run(in string) string {
 	f := strings.Split(in, " ")
 	switch f[0] {
@@ -306,7 +437,13 @@ func c34Run(in string) string {
 		}
 		out = append(out, c34Idx(q))
 		return strings.Join(out, " ")
-	case "conc", "concl", "concg":
+	case "shape":
+		return c34Shape(f[1])
+	case "conc", "concl", "concg", "conct":
+		if f[0] == "conct" {
+			c34Live = 2 * time.Second
+			defer func() { c34Live = 40 * time.Millisecond }()
+		}
 		progs := make([][]string, 0, len(f)-2)
 		for _, p := range f[2:] {
 			progs = append(progs, c34Prog(p))
@@ -403,6 +540,31 @@ func c34GenConc(r *vu.RNG) string {
 	return kw + " " + strings.Join(parts, " ")
 }
 
+// c34GenTimed: PopWithTimer with a live timer on a queue that is empty (or is emptied by
+// goroutine 0 itself) while later goroutines push: the transaction is taken by the polling loop.
+func c34GenTimed(r *vu.RNG) string {
+	T := r.Range(2, 4)
+	parts := []string{"-"}
+	p0 := []string{}
+	if r.Chance(1, 3) {
+		parts[0] = "u:0:1"
+		p0 = append(p0, "o")
+	}
+	p0 = append(p0, "w")
+	if r.Chance(1, 2) {
+		p0 = append(p0, []string{"k", "n", "e:1"}[r.Intn(3)])
+	}
+	parts = append(parts, strings.Join(p0, ","))
+	for t := 1; t < T; t++ {
+		ops := []string{fmt.Sprintf("u:%x:%x", t, r.Intn(2))}
+		if r.Chance(1, 2) {
+			ops = append(ops, []string{"e:1", "n", "k", "u:1:1"}[r.Intn(4)])
+		}
+		parts = append(parts, strings.Join(ops, ","))
+	}
+	return "conct " + strings.Join(parts, " ")
+}
+
 var c34Methods = []string{"Exists", "Len", "Peek", "Pending", "Pop", "PopWithTimer", "Push", "RemoveExtrinsic"}
 
 // c34Broken probes the lock discipline directly: when a method runs while the harness holds the
@@ -421,6 +583,9 @@ func c34Gen(r *vu.RNG, n int, emit func(string)) {
 	for _, m := range c34Methods {
 		emit("probe " + m)
 	}
+	for _, m := range c34Methods {
+		emit("shape " + m)
+	}
 	broken := c34Broken()
 	if os.Getenv("VERIF_MODE") == "stress" {
 		for i := 0; i < n && !broken; i++ {
@@ -434,8 +599,13 @@ func c34Gen(r *vu.RNG, n int, emit func(string)) {
 	for i := 0; i < n; i++ {
 		emit(c34GenSeq(r))
 	}
+	emit("seq w u:1:1 w w n")
+	emit("seq u:1:1 u:2:2 w w w g")
 	for i := 0; i < n/25 && !broken; i++ {
 		emit(c34GenConc(r))
+	}
+	for i := 0; i < n/250 && !broken; i++ {
+		emit(c34GenTimed(r))
 	}
 }
 
